@@ -216,7 +216,12 @@ RECIPES["C02"] = {"units": _STEP_UNITS, "jobs": [step_job("step", "CHECK_C02", e
 RECIPES["C03"] = {"units": _STEP_UNITS, "jobs": [step_job("step", "CHECK_C03", events=_EV_DATA + _EV_REPLY + ["EV_C"])]}
 RECIPES["C05"] = {"units": _STEP_UNITS, "jobs": [step_job("step", "CHECK_C05", events=_EV_REPLY + ["EV_H", "EV_U", "EV_P"])]}
 RECIPES["C06"] = {"units": _STEP_UNITS, "jobs": [step_job("step", "CHECK_C06", events=_EV_DATA)]}
-RECIPES["C07"] = {"units": _STEP_UNITS, "jobs": [step_job("step", "CHECK_C07")]}
+RECIPES["C07"] = {"units": _STEP_UNITS, "jobs": [
+    step_job("step", "CHECK_C07"),
+    {"name": "two", "src": ["C07_two.c"] + IAUTH, "defs": {"all": {"NREQ": 2, "NSVC": 2}},
+     "splits": {"all": [{"TWO_NICK": None}, {"TWO_HURRY": None}]},
+     "unwind": 800, "unwindset": STEP_UNWINDSET, "fp_restrict": FP_IAUTH, "flags": ["--sat-solver", "cadical"], "timeout": 900},
+]}
 RECIPES["C10"] = {"units": _STEP_UNITS, "jobs": [
     step_job("step", "CHECK_C10"),
     {"name": "teardown", "src": ["C10_teardown.c"] + IAUTH, "defs": {"all": {"NSVC": 2}},
@@ -236,7 +241,7 @@ RECIPES["C04"] = {
 
 IAUTH_NOMISC = ["env/misc_stub.c"] + [x for x in IAUTH if x != "repo:modules/iauth_misc.c"]
 LINE_UW = STEP_UNWINDSET + ["iauth_read.0:3", "iauth_read.1:100", "iauth_read.2:20", "iauth_read.3:100", "iauth_read.4:100",
-                            "known_cmd.0:20", "harness.0:100", "harness.1:100", "harness.2:100", "memcpy.0:100"]
+                            "known_cmd.0:20", "evbuffer_readln.0:100", "harness.0:100", "harness.1:100", "harness.2:100", "memcpy.0:100"]
 
 
 def _line_uw(d):
